@@ -14,6 +14,8 @@ pub fn fault_name(f: &WireFault) -> &'static str {
         WireFault::Dup => "dup",
         WireFault::SigBit { .. } => "sig-bitflip",
         WireFault::SigByte { .. } => "sig-setbyte",
+        WireFault::SigBitAt { .. } => "sig-bitflip-at",
+        WireFault::PkBitAt { .. } => "pk-bitflip-at",
         WireFault::FieldBit { .. } => "field-bitflip",
         WireFault::FieldU32 { .. } => "setfield-u32",
         WireFault::FieldByte { .. } => "setfield-byte",
@@ -124,6 +126,20 @@ pub fn apply_fault(w: &World, env: usize, fault: &WireFault) -> Mutated {
             if !m.sig.is_empty() {
                 let p = frac(*pos, m.sig.len());
                 m.sig[p] ^= 1 << (bit % 8);
+            }
+        }
+        WireFault::SigBitAt { byte, bit } => {
+            if *byte < m.sig.len() {
+                m.sig[*byte] ^= 1 << (bit % 8);
+            } else {
+                m.skipped = true;
+            }
+        }
+        WireFault::PkBitAt { byte, bit } => {
+            if *byte < m.pk.len() {
+                m.pk[*byte] ^= 1 << (bit % 8);
+            } else {
+                m.skipped = true;
             }
         }
         WireFault::SigByte { pos, val } => {
